@@ -991,8 +991,15 @@ func (e *ev) binary(x *E) Val {
 		}
 		return Bool(found)
 	case "starts with", "ends with":
+		if l.K == KNum || r.K == KNum {
+			leave(op + " on numbers")
+		}
 		if l.K != KStr || r.K != KStr {
-			leave(op + " on non-strings")
+			// only a string starts or ends with a string: null, a boolean, a
+			// list or a hash coerce to the empty string but are not the
+			// beginning of every string
+			e.sh.feature("strtest:operand-not-a-string")
+			return Bool(false)
 		}
 		if op == "starts with" {
 			return Bool(strings.HasPrefix(l.S, r.S))
